@@ -36,6 +36,18 @@ STD_VARIANTS = {
 ORDERING = {'-1': 'Less', '255': 'Less', '18446744073709551615': 'Less', '0': 'Equal', '1': 'Greater'}
 
 
+def mentions_log(e):
+    for x in walk(e):
+        if isinstance(x, tuple) and x:
+            if x[0] == 'call' and isinstance(x[1], str) and x[1].startswith('log::'):
+                return True
+            if x[0] == 'agg' and isinstance(x[1], str) and x[1].startswith('log::'):
+                return True
+            if x[0] in ('cdef', 'static') and isinstance(x[1], str) and x[1].startswith('log::'):
+                return True
+    return False
+
+
 def adt_head(ty):
     """'std::option::Option<usize>' -> 'std::option::Option'"""
     t = ty.lstrip('&').strip()
@@ -97,6 +109,8 @@ class PathFacts:
         self._blk_kill = {}
         self.IN = None
         self.history = history
+        # feasibility pruning of repeated tests of the same value is exact only without loops
+        self.loop_free = not self.cfg.back_edges()
         # parameters of shared reference type: their referents are immutable during the call
         self.immut = frozenset(i + 1 for i, t in enumerate(self.fn.inputs) if t.startswith('&') and not t.startswith('&mut'))
         self.run()
@@ -122,6 +136,10 @@ class PathFacts:
         if t['k'] == 'switch':
             e = self.fa.operand(t['d'], at)
             dty = t.get('dty', '')
+            if mentions_log(e):
+                # `debug!`-style level gates: both edges carry the same facts (logging is output only)
+                self._edge_cache[key] = self.store_markers(b) if self.record_stores else []
+                return self._edge_cache[key]
             if dty == 'bool':
                 if lab[0] == 'sw':
                     pol = (lab[1] != '0')
@@ -168,6 +186,21 @@ class PathFacts:
                     res = [('eqc', x, lab[1])]
                 else:
                     res = [('nec', x, lab[1])]
+            if self.loop_free and res:
+                # hidden markers with sites kept: the same sited value cannot be tested with two outcomes on one path
+                if dty == 'bool':
+                    pol = None
+                    for f in res:
+                        pass
+                    if lab[0] == 'sw':
+                        pol = (lab[1] != '0')
+                    else:
+                        pol = ('0' in lab[1])
+                    res = list(res) + [('~b', e, pol)]
+                elif e[0] == 'discr':
+                    res = list(res) + [('~v', e[1], lab[1] if lab[0] == 'sw' else ('not', lab[1]))]
+                else:
+                    res = list(res) + [('~v', e, lab[1] if lab[0] == 'sw' else ('not', lab[1]))]
         elif t['k'] == 'call' and self.record_calls and 'indirect' not in t['f'] and self.record_calls(t['f']):
             v = self.fa.call_value(t, at)
             res = [('called', callee_str(t['f']), tuple(strip_sites(a) for a in v[2]), b)]
@@ -240,7 +273,10 @@ class PathFacts:
                 ef = self.edge_facts(b, lab)
                 new = set()
                 for fs in st2:
-                    new.add(fs | frozenset(ef) if ef else fs)
+                    ns = fs | frozenset(ef) if ef else fs
+                    if self.loop_free and ef and contradictory(ns, ef):
+                        continue
+                    new.add(ns)
                 old = IN[s]
                 merged = minimal(set(old) | new) if old is not None else minimal(new)
                 if len(merged) > self.cap:
@@ -281,6 +317,25 @@ class PathFacts:
         return minimal(out)
 
 
+def contradictory(fs, new_facts):
+    """does the path fact set test one sited value with two different outcomes?"""
+    for m in new_facts:
+        if m[0] == '~b':
+            if ('~b', m[1], not m[2]) in fs:
+                return True
+        elif m[0] == '~v':
+            for f in fs:
+                if f[0] == '~v' and f[1] == m[1] and f[2] != m[2]:
+                    a, b = f[2], m[2]
+                    if not isinstance(a, tuple) and not isinstance(b, tuple):
+                        return True          # two different explicit values
+                    if isinstance(a, tuple) and not isinstance(b, tuple) and b in a[1]:
+                        return True
+                    if isinstance(b, tuple) and not isinstance(a, tuple) and a in b[1]:
+                        return True
+    return False
+
+
 PRUNE_ABOVE = 400
 
 
@@ -304,7 +359,7 @@ def minimal(sets, force=False):
 def fact_killed(f, ks, immut=frozenset()):
     """is fact f invalidated by the kill keys ks?  Loads rooted at a shared-reference
     parameter (index in immut) cannot change during the call and are never killed."""
-    if f[0] in ('stored', 'called'):
+    if f[0] in ('stored', 'called', '~b', '~v'):
         return False  # history markers
     rr = roots_read(f)
     only_immut = bool(rr) and rr <= immut and not any(x and x[0] == 'local' for x in walk(f))
